@@ -142,6 +142,17 @@ def pluto(repo, rep):
     site = "Pluto." + q
     isyear = lambda t: t == T.call("Epoch.Epoch.year", ("epoch", T.sym("E")))
     ok, msg = refusal_check(outs, "ValueError", [cmp_is("Lt", isyear, 1885), cmp_is("Gt", isyear, 2099)], "year < 1885 or year > 2099")
+    if not ok:
+        # the range test may live in the heliocentric routine this one calls first with the very same epoch
+        t0 = symx.return_term(outs)
+        inner = [x for x in (T.walk(t0) if t0 is not None else []) if x[0] == "call" and x[1] == "Pluto.Pluto.geometric_heliocentric_position"
+                 and x[2:] == (("epoch", T.sym("E")),)]
+        if inner:
+            f2 = repo.func("Pluto", "Pluto.geometric_heliocentric_position")
+            outs2 = outcomes(repo, "Pluto", "Pluto.geometric_heliocentric_position", arg_terms={f2.args.args[0].arg: ("epoch", T.sym("E"))})
+            ok, msg2 = refusal_check(outs2, "ValueError", [cmp_is("Lt", isyear, 1885), cmp_is("Gt", isyear, 2099)], "year < 1885 or year > 2099")
+            if ok:
+                msg = "refusal delegated to geometric_heliocentric_position(epoch), called with the query epoch: " + msg2
     if ok:
         rep.ok("R-RANGE-REFUSE", site, msg)
     else:
@@ -323,7 +334,12 @@ def minor(repo, rep):
             continue
         taus = [x for x in T.walk(t) if x[0] == "mul" and x[1] in (("num", LT), ("num", -LT)) and any(y[0] == "call" and y[1] == "sqrt" for y in x[2:])]
         if not taus:
-            rep.violation("R-DEP", site, "tau-ignored", "the light time 0.0057755183 * distance never reaches the returned values in this orbit regime")
+            opaque = [x for x in T.walk(t) if x[0] == "call" and isinstance(x[1], str) and (x[1].startswith(".") or x[1] in ("apply", "generator"))]
+            if opaque:
+                # the position goes through objects / methods the evaluator does not model: the dependence on the light time cannot be read off
+                rep.inconcl("R-DEP", site, "light-time dependence not readable: unmodelled call `%s`" % opaque[0][1])
+            else:
+                rep.violation("R-DEP", site, "tau-ignored", "the light time 0.0057755183 * distance never reaches the returned values in this orbit regime")
             continue
         tau = taus[0]
         radec = ("tuple", t[1], t[2])
